@@ -14,7 +14,7 @@ package electreIII
 //@ spec elImportance(l model.BiasListener, p *model.DecisionMakingParams, id string) real = (*p.MethodParameters.(electreIIIParams).Criteria)[id].K
 
 //@ func (*ElectreIIIBiasLIstener).OnCriteriaRemoved
-//@   property C07 C15 C20 C05 C06
+//@   property C07 C15 C20 C05 C06 C01 C09
 //@   nopanic
 //@   refines model.BiasListener.OnCriteriaRemoved with validParams=elValid, coversId=elCovers
 //@   ensures [restricted] forall k int :: 0 <= k && k < len(*leftCriteria) ==>
@@ -26,7 +26,7 @@ package electreIII
 //@   loop 1 invariant [kept] forall k int :: 0 <= k && k < iter ==> (*leftCriteria)[k].Id in resCriteria && resCriteria[(*leftCriteria)[k].Id] == (*params.(electreIIIParams).Criteria)[(*leftCriteria)[k].Id]
 
 //@ func (*ElectreIIIBiasLIstener).OnCriterionAdded
-//@   property C07 C18 C20 C05 C06
+//@   property C07 C18 C20 C05 C06 C01 C09 C19
 //@   nopanic
 //@   fnparam generator ensures 0.0 <= result && result < 1.0
 //@   refines model.BiasListener.OnCriterionAdded with validParams=elValid, coversId=elCovers, accepts=elAccepts, acceptsAny=elAcceptsAny
@@ -36,7 +36,7 @@ package electreIII
 //@             && (*result.(electreIIIParams).Criteria)[criterion.Id].V == (*params.(electreIIIParams).Criteria)[referenceCriterion.Id].V
 
 //@ func (*ElectreIIIBiasLIstener).Merge
-//@   property C07 C18 C20 C05 C06
+//@   property C07 C18 C20 C05 C06 C01 C09 C19
 //@   refines model.BiasListener.Merge with validParams=elValid, coversId=elCovers, accepts=elAccepts, acceptsAny=elAcceptsAny
 //@   ensures [distillation_kept] result.(electreIIIParams).DistillationFun == params.(electreIIIParams).DistillationFun
 //@   ensures [values] forall q string :: (q in *params.(electreIIIParams).Criteria ==> (*result.(electreIIIParams).Criteria)[q] == (*params.(electreIIIParams).Criteria)[q])
@@ -49,7 +49,7 @@ package electreIII
 //@   loop 2 invariant [ctx] fresh(newCriteria) && newCriteria != nil
 
 //@ func (*ElectreIIIBiasLIstener).RankCriteriaAscending
-//@   property C15 C07 C16 C18 C19
+//@   property C15 C07 C16 C18 C19 C01 C09 C20
 //@   refines model.BiasListener.RankCriteriaAscending with validParams=elValid, coversId=elCovers, imp=elImportance
 //@   loop 1 invariant [copied] forall k string :: seen(k) ==> (k in weights && weights[k] == (*params.MethodParameters.(electreIIIParams).Criteria)[k].K)
 //@   loop 1 invariant [ctx] fresh(weights) && weights != nil
@@ -174,12 +174,12 @@ package electreIII
 // ---- parameter validation (C05, C20)
 
 //@ func requireBValueAtLeast
-//@   property C05 C20 C07
+//@   property C05 C20 C07 C01
 //@   panics_iff [constant_threshold_not_increasing] f.A == 0.0 && f.B != 0.0 && f.B <= current
 //@   ensures [running_bound] result == (f.B > 0.0 ? f.B : current)
 
 //@ func validateParameters
-//@   property C05 C20 C07
+//@   property C05 C20 C07 C01
 //@   panics_iff [k_not_positive_or_thresholds_not_increasing] crit.K <= 0.0
 //@             || (crit.Q.A == 0.0 && crit.Q.B != 0.0 && crit.Q.B <= 0.0)
 //@             || (crit.P.A == 0.0 && crit.P.B != 0.0 && crit.P.B <= (crit.Q.B > 0.0 ? crit.Q.B : 0.0))
@@ -194,7 +194,7 @@ package electreIII
 //@   ensures  f.A * x + f.B >= 0.0
 
 //@ func getDistillationFunc
-//@   property C20 C05 C07
+//@   property C20 C05 C07 C01
 //@   panics_iff [negative_somewhere_on_the_unit_interval] "electreDistillation" in dm.MethodParameters
 //@             && ((decoded_has(dm.MethodParameters["electreDistillation"], "B") ? decoded_real(dm.MethodParameters["electreDistillation"], "B") : 0.0) < 0.0
 //@                 || (decoded_has(dm.MethodParameters["electreDistillation"], "A") ? decoded_real(dm.MethodParameters["electreDistillation"], "A") : 0.0)
@@ -234,19 +234,19 @@ package electreIII
 //@   returnhint [both_distillations_of_the_same_matrix_with_the_configured_function] isAscRank(ascending, matrix, distillationFun) && isDescRank(descending, matrix, distillationFun)
 
 //@ func (*ElectreIIIPreferenceFunc).Evaluate
-//@   property C20 C05 C06
+//@   property C20 C05 C06 C01
 //@   requires [valid_parameters] typeis(dmp.MethodParameters, electreIIIParams) && dmp.MethodParameters.(electreIIIParams).DistillationFun != nil
 //@             && nonnegOnUnit(*dmp.MethodParameters.(electreIIIParams).DistillationFun)
 //@   ensures [ranking] result != nil
 //@   ensures [exactly_the_considered_alternatives] len(*result) == len(dmp.ConsideredAlternatives) && forall a int :: 0 <= a && a < len(dmp.ConsideredAlternatives) ==> (*result)[a].Alternative == dmp.ConsideredAlternatives[a]
 
 //@ func (*ElectreIIIPreferenceFunc).ParseParams
-//@   property C20 C05 C07
+//@   property C20 C05 C07 C01
 //@   ensures [valid_parameters] typeis(result, electreIIIParams) && result.(electreIIIParams).Criteria != nil
 //@             && result.(electreIIIParams).DistillationFun != nil && nonnegOnUnit(*result.(electreIIIParams).DistillationFun)
 
 //@ func extractElectreIIICriteria
-//@   property C20 C05 C07
+//@   property C20 C05 C07 C01
 //@   ensures [validated] result != nil && fresh(result) && forall k int :: 0 <= k && k < len(dm.Criteria) ==> dm.Criteria[k].Id in *result && (*result)[dm.Criteria[k].Id].K > 0.0
 //@   loop 1 invariant [validated] forall k int :: 0 <= k && k < iter ==> dm.Criteria[k].Id in electreCriteria && electreCriteria[dm.Criteria[k].Id].K > 0.0
 
@@ -496,13 +496,13 @@ package electreIII
 
 // ---- registered names (what a request must say to select this object; what error messages list)
 //@ func (*ElectreIIIBiasLIstener).Identifier
-//@   property C07 C20
+//@   property C07 C20 C01 C03 C04 C05 C06 C08 C09 C11 C12 C13 C14 C15 C16 C17 C18 C19
 //@   nopanic
 //@   ensures [name] result == "electreIII"
 
 // ---- registered names (what a request must say to select this object; what error messages list)
 //@ func (*ElectreIIIPreferenceFunc).Identifier
-//@   property C05 C06 C20
+//@   property C05 C06 C20 C01 C03 C04 C07 C08 C09 C11 C12 C13 C14 C15 C16 C17 C18 C19
 //@   nopanic
 //@   ensures [name] result == "electreIII"
 
